@@ -22,7 +22,7 @@ RULE = (
     "first reads deliver 1 and 2 bytes), stream names tuned so the options row / first "
     "frame are 8..12, 126..130 bytes; both must parse (both integrations) to the input. (c) the same statements through the "
     "serializer entry points that let the caller choose the mode (rdflib Graph.serialize with options+stream / with a "
-    "stream only / to a destination, stream_frames of both integrations): first bytes classified as the requested mode, "
+    "stream only / to a destination, stream_frames of both integrations): first bytes classified as the requested mode, the mode get_options_and_frames reports to its caller equals it (streams with identical options rows read back to back in both orders), "
     "non-delimited output is one bare frame, both modes parse to the same content. "
     "non-trivial = header with 0x0A in >=2 positions or a multi-byte varint (a), first frame or options row "
     "of length 10 or >=128 (b); distinct by header bytes resp. case hash."
@@ -229,8 +229,19 @@ def check_e2e(case, acc):
         acc.case(case, nt, labels)
 
     want = [list(map(list, map(T.norm, s))) for s in case["statements"]]
-    if case["phys"] == "TRIPLES":
-        pass
+    # what the reader tells its caller about the framing, for the two streams with one and the same options row read one
+    # after the other (both orders)
+    from pyjelly.parse.ioutils import get_options_and_frames
+
+    for order in ((("delimited", delim, True), ("nondelimited", single, False)), (("nondelimited", single, False), ("delimited", delim, True))):
+        for label, data, mode in order:
+            try:
+                reported = get_options_and_frames(io.BytesIO(data))[0].params.delimited
+            except Exception as exc:  # noqa: BLE001
+                return Violation(f"C08:e2e-{label}-rejected", f"get_options_and_frames: {type(exc).__name__}: {exc}", case)
+            if reported != mode:
+                return Violation("C08:reported-mode-differs", f"{label} stream (first bytes {data[:3].hex()}): "
+                                 f"get_options_and_frames reports params.delimited={reported}", case)
     for integ in ("generic", "rdflib"):
         exp = want  # rows are written by the generic encoder; both readers deliver the wire terms unchanged
         for label, data, src in (("delimited", delim, None), ("nondelimited", single, None),
@@ -289,6 +300,15 @@ def written_by_pyjelly(case, acc):
                 return Violation(f"C08:writer-raises:{type(exc).__name__}", f"{integ}.{entry} delimited={mode}: {exc!r}", case)
             if acc is not None:
                 acc.count("pyjelly_written_outputs")
+            try:
+                from pyjelly.parse.ioutils import get_options_and_frames
+
+                reported = get_options_and_frames(io.BytesIO(data))[0].params.delimited
+            except Exception as exc:  # noqa: BLE001
+                return Violation("C08:written-output-rejected", f"{integ}.{entry} delimited={mode}: get_options_and_frames: {exc!r}", case)
+            if reported != mode:
+                return Violation("C08:reported-mode-differs", f"{integ}.{entry} wrote delimited={mode}; get_options_and_frames "
+                                 f"reports params.delimited={reported} (first bytes {data[:3].hex()})", case)
             if hint(data[:3]) != mode:
                 return Violation("C08:written-mode-misclassified", f"{integ}.{entry} asked for delimited={mode}; the first bytes "
                                  f"{data[:3].hex()} are classified as delimited={hint(data[:3])}", case)
